@@ -309,7 +309,8 @@ class InstV:
 STR_METHODS = {'split', 'splitlines', 'rstrip', 'lstrip', 'strip', 'startswith', 'endswith', 'removeprefix', 'removesuffix', 'replace',
                'count', 'rfind', 'find', 'upper', 'lower', 'join', 'strftime', 'format', 'encode', 'partition', 'isoformat', 'quantize',
                'as_tuple', 'normalize', 'adjusted', 'is_zero', 'is_signed', 'copy_abs', 'copy_negate', 'to_integral_value', 'scaleb',
-               'is_finite', 'is_nan', 'year', 'month', 'day', 'group', 'groups', 'fullmatch', 'match', 'findall', 'sub'}
+               'is_finite', 'is_nan', 'is_normal', 'is_subnormal', 'is_infinite', 'is_qnan', 'is_snan', 'is_canonical', 'copy_sign', 'compare',
+               'compare_total', 'same_quantum', 'to_integral', 'to_integral_exact', 'number_class', 'canonical', 'year', 'month', 'day', 'group', 'groups', 'fullmatch', 'match', 'findall', 'sub'}
 MODEL_PRIMS = {'detach', 'reattach', '_reattach', 'clone', '_clone', '__deepcopy__', 'iter_children_formatted'}
 CTOR_PRIMS = {'from_value', 'from_default', 'from_raw_text', 'from_children', 'from_parsed_children', 'from_tokens'}
 PURE_BUILTINS = {'len', 'str', 'int', 'id', 'repr', 'bool', 'abs', 'min', 'max', 'sum', 'range', 'hasattr', 'print', 'float',
